@@ -95,6 +95,10 @@ func VerifC18Scalar(kind int, n int) {
 		x := vrt.Int64("xi64")
 		v, wantInt, want = x, true, x
 	case 7:
+		if n == 1 {
+			zzC18BigUnsigned(false)
+			return
+		}
 		x := vrt.Uint64("xuint")
 		v, wantInt, isU, wantU = uint(x), true, true, x
 	case 8:
@@ -109,6 +113,10 @@ func VerifC18Scalar(kind int, n int) {
 		vrt.Assume(x <= 0xFFFFFFFF)
 		v, wantInt, isU, wantU = uint32(x), true, true, x
 	case 11:
+		if n == 1 {
+			zzC18BigUnsigned(true)
+			return
+		}
 		x := vrt.Uint64("xu64")
 		v, wantInt, isU, wantU = x, true, true, x
 	case 12: // float32 (concrete table: floats are concrete only in this engine)
@@ -165,6 +173,11 @@ func VerifC18Scalar(kind int, n int) {
 	}
 	if isU {
 		vrt.Carve("C18-uint64-wraps-negative", wantU >= 1<<63)
+		// since fix b2e735f a uint/uint64 from 2^63 on becomes a bignum, which
+		// Simplify returns as its decimal text: the engine can not write the text
+		// of a symbolic big integer, so that range is checked on concrete values
+		// (cases [7,1] and [11,1], zzC18BigUnsigned) and excluded here
+		vrt.Assume(wantU < 1<<63)
 	}
 	out := zzC18Trip(v)
 	vrt.Reach("compared")
@@ -179,6 +192,23 @@ func VerifC18Scalar(kind int, n int) {
 			vrt.Assert(r == want, "signed integer comes back with another numeric value")
 		}
 	}
+}
+
+// zzC18BigUnsigned: uint / uint64 values from 2^63 on (concrete table) come
+// back as the decimal text of the same number (bignum -> Simplify).
+func zzC18BigUnsigned(as64 bool) {
+	vals := []uint64{1 << 63, 1<<63 + 12345, 18446744073709551615}
+	x := vals[vrt.Choice("big", len(vals))]
+	var out zzC18Out
+	if as64 {
+		out = zzC18Trip(x)
+	} else {
+		out = zzC18Trip(uint(x))
+	}
+	vrt.Reach("compared")
+	vrt.Assert(out.class != 3, "Go run-time fault in the bridge")
+	rs, ok := out.val.(string)
+	vrt.Assert(out.class == 0 && ok && rs == strconv.FormatUint(x, 10), "an unsigned integer from 2^63 on does not come back as its decimal text")
 }
 
 // zzC18Gen builds a Go value from a shape text and, independently, its
